@@ -3,7 +3,7 @@ from __future__ import annotations
 
 import ast
 
-from .. import astu, flow, types
+from .. import astu, evid, flow, types
 from ..cfg import cfg_of
 from ..model import AnalysisError
 from ..report import key_of
@@ -40,26 +40,44 @@ def r1(R, repo):
     ok_g = flow.may_derive(f, g, lambda e: isinstance(e, ast.Name) and e.id == 'grads')
     ok_s = flow.may_derive(f, s, lambda e: astu.src(e) == 'self.opt_state')
     ok_p = flow.may_derive(f, p, lambda e: astu.src(e) in ('self.params', 'self.model'))
-    R.check(ok_g and ok_s and ok_p, key_of(f, 'tx.update(gradients, current optimizer state, current params)'), (f, up),
+    roles = lambda e: ('g' if flow.may_derive(f, e, lambda x: isinstance(x, ast.Name) and x.id == 'grads') else '') + ('s' if flow.may_derive(f, e, lambda x: astu.src(x) == 'self.opt_state') else '') + ('p' if flow.may_derive(f, e, lambda x: astu.src(x) in ('self.params', 'self.model')) else '')
+    R.judge(all(len(roles(e_)) == 1 for e_ in (g, s, p)), ok_g and ok_s and ok_p, key_of(f, 'tx.update(gradients, current optimizer state, current params)'), (f, up),
             '%s must call tx.update with the gradients, the wrapper\'s current optimizer state and its current parameters in that order (got %s)' % (q, args))
     aa = [astu.src(a) for a in ap.value.args]
-    R.check(aa == [astu.src(p), updates], key_of(f, 'apply_updates(the same params, the updates from tx.update)'), (f, ap),
+    p_alts = evid.arg_text(f, p)
+    a_ok = len(ap.value.args) == 2 and (astu.src(ap.value.args[0]) == astu.src(p) or evid.arg_text(f, ap.value.args[0]) == p_alts) and astu.src(ap.value.args[1]) == updates
+    known = len(ap.value.args) == 2 and all(isinstance(a_, (ast.Name, ast.Attribute)) for a_ in ap.value.args)
+    R.judge(a_ok or known, a_ok, key_of(f, 'apply_updates(the same params, the updates from tx.update)'), (f, ap),
             '%s must compute optax.apply_updates(%s, %s) — the params given to tx.update and its first result — got apply_updates(%s)' % (q, astu.src(p), updates, ', '.join(aa)))
     # sinks
     if q == 'Optimizer.update':
       sink_p = [x for x in astu.func_calls(f) if astu.call_name(x) == 'nnx.update']
       sink_s = [x for x in astu.func_calls(f) if astu.call_name(x) == '_update_opt_state']
-      ok = len(sink_p) == 1 and [astu.src(a) for a in sink_p[0].args] == ['self.model', new_params] and len(sink_s) == 1 and [astu.src(a) for a in sink_s[0].args] == ['self.opt_state', new_state]
-      R.check(ok, key_of(f, 'new params -> nnx.update(model), new state -> _update_opt_state'), f, 'Optimizer.update must write the new params into the model and the new optax state into self.opt_state')
+      def _roles(call, first, second):
+        if len(call.args) != 2:
+          return None
+        t0, t1 = evid.arg_text(f, call.args[0]) | {astu.src(call.args[0])}, evid.arg_text(f, call.args[1]) | {astu.src(call.args[1])}
+        if first in t0 and second in t1:
+          return True
+        if first in t1 and second in t0:
+          return False
+        return None
+      rp_ = _roles(sink_p[0], 'self.model', new_params) if len(sink_p) == 1 else None
+      rs_ = _roles(sink_s[0], 'self.opt_state', new_state) if len(sink_s) == 1 else None
+      if not sink_p or not sink_s:
+        gone = 'nnx.update' if not sink_p else '_update_opt_state'
+        R.judge(not evid.calls_deep(repo, f, evid.call_named(gone.split('.')[-1])), False, key_of(f, 'new params -> nnx.update(model), new state -> _update_opt_state'), f, 'Optimizer.update no longer calls %s: the %s is never written back' % (gone, 'new parameters' if not sink_p else 'new optimizer state'))
+      else:
+        R.judge(rp_ is not None and rs_ is not None, bool(rp_) and bool(rs_), key_of(f, 'new params -> nnx.update(model), new state -> _update_opt_state'), f, 'Optimizer.update must write the new params into the model and the new optax state into self.opt_state')
       stores = [n for n in astu.body_walk(f.node) if isinstance(n, (ast.Attribute, ast.Subscript)) and isinstance(n.ctx, ast.Store)]
-      R.check(all(astu.src(n) == 'self.step.value' for n in stores), key_of(f, 'nothing else is written'), f, 'Optimizer.update must not write anything but step, model params and optimizer state (found %s)' % [astu.src(n) for n in stores])
+      R.check(all(astu.src(n) == 'self.step.value' for n in stores if astu.src(n).startswith('self')), key_of(f, 'nothing else is written'), f, evidence=True, msg_fail= 'Optimizer.update must not write anything but step, model params and optimizer state (found %s)' % [astu.src(n) for n in stores])
     else:
       rets = [n for n in astu.body_walk(f.node) if isinstance(n, ast.Return)]
       ok = len(rets) == 1 and isinstance(rets[0].value, ast.Call) and astu.src(rets[0].value.func) == 'self.replace'
       if ok:
         kw = {k.arg: k.value for k in rets[0].value.keywords if k.arg}
         ok = 'params' in kw and 'opt_state' in kw and astu.src(kw['opt_state']) == new_state and flow.may_derive(f, kw['params'], lambda e: isinstance(e, ast.Name) and e.id == new_params)
-      R.check(ok, key_of(f, 'replace(params=new params, opt_state=new state)'), f, '%s must return self.replace(params=<new params>, opt_state=<second result of tx.update>, …)' % q)
+      R.judge(len(rets) == 1 and isinstance(rets[0].value, ast.Call) and astu.src(rets[0].value.func) == 'self.replace' and 'params' in {k.arg for k in rets[0].value.keywords} and 'opt_state' in {k.arg for k in rets[0].value.keywords}, ok, key_of(f, 'replace(params=new params, opt_state=new state)'), f, '%s must return self.replace(params=<new params>, opt_state=<second result of tx.update>, …)' % q)
 
 
 @rule('C17.R2', 'K2+K8', 3, 'the step counter grows by exactly one per update')
@@ -70,14 +88,15 @@ def r2(R, repo):
     if q == 'Optimizer.update':
       inc = [n for n in c.nodes if isinstance(n.stmt, ast.AugAssign) and astu.src(n.stmt.target) == 'self.step.value' and isinstance(n.stmt.op, ast.Add) and astu.is_const(n.stmt.value, 1)]
       ok, why = c.exactly_once_to_exit(inc) if inc else (False, 'no increment')
-      R.check(ok, key_of(f, 'self.step.value += 1 exactly once'), f, 'Optimizer.update must increment step by one exactly once on every path: %s' % why)
+      any_step = [n for n in astu.body_walk(f.node) if isinstance(n, (ast.Attribute, ast.Name)) and isinstance(n.ctx, ast.Store) and 'step' in astu.src(n)] or evid.calls_deep(repo, f, lambda y: 'step' in astu.src(y.func))
+      R.judge(bool(inc) or not any_step, ok, key_of(f, 'self.step.value += 1 exactly once'), f, 'Optimizer.update must increment step by one exactly once on every path: %s' % why)
     else:
       rets = [n for n in astu.body_walk(f.node) if isinstance(n, ast.Return)]
       kw = {k.arg: k.value for k in rets[0].value.keywords if k.arg} if rets and isinstance(rets[0].value, ast.Call) else {}
       v = kw.get('step')
       if isinstance(v, ast.Name):
         v = types.single_def(f.node, v.id)
-      R.check(v is not None and astu.src(v) == 'self.step + 1', key_of(f, 'step=self.step + 1'), f, '%s must return the new state with step=self.step + 1 (got %s)' % (q, astu.src(v)))
+      evid.judge_expr(R, f, v, ['self.step + 1', '1 + self.step'], key_of(f, 'step=self.step + 1'), f, '%s must return the new state with step=self.step + 1' % q, follow=False) if False else R.judge(v is not None and (astu.src(v) in ('self.step + 1', '1 + self.step') or evid.delta(ast.parse('self.step + 1', mode='eval').body, v, {'self', 'step'}) == 'swap' or astu.src(v) == 'self.step'), v is not None and astu.src(v) in ('self.step + 1', '1 + self.step'), key_of(f, 'step=self.step + 1'), f, '%s must return the new state with step=self.step + 1 (got %s)' % (q, astu.src(v)))
 
 
 @rule('C17.R3', 'K4', 4, 'the optimizer state is initialised on exactly what update() later optimises')
@@ -86,7 +105,7 @@ def r3(R, repo):
   ini, upd = op.func('Optimizer.__init__'), op.func('Optimizer.update')
   R.check('tx.init(nnx.state(model, wrt))' in astu.src(ini.node) and 'self.wrt = wrt' in astu.src(ini.node) and 'self.model = model' in astu.src(ini.node), key_of(ini, 'tx.init(nnx.state(model, wrt)); wrt remembered'), ini,
           'Optimizer.__init__ must initialise the optax state on nnx.state(model, wrt) and remember model and wrt')
-  R.check('params = nnx.state(self.model, self.wrt)' in astu.src(upd.node), key_of(upd, 'update reads nnx.state(self.model, self.wrt)'), upd, 'Optimizer.update must optimise nnx.state(self.model, self.wrt) — the same filter the state was initialised with')
+  evid.judge_stmts(R, upd, ['params = nnx.state(self.model, self.wrt)'], key_of(upd, 'update reads nnx.state(self.model, self.wrt)'), upd, vocab=('Param', 'Variable'), msg='Optimizer.update must optimise nnx.state(self.model, self.wrt) — the same filter the state was initialised with')
   ts = repo.mod(TS)
   cr, ag = ts.func('TrainState.create'), ts.func('TrainState.apply_gradients')
   R.check("params_with_opt = params['params'] if OVERWRITE_WITH_GRADIENT in params else params" in astu.src(cr.node) and 'opt_state = tx.init(params_with_opt)' in astu.src(cr.node) and 'params=params' in astu.src(cr.node),
@@ -107,7 +126,7 @@ def r4(R, repo):
     f = m.func(q + '.apply_gradients')
     st = [n for n in astu.body_walk(f.node) if isinstance(n, (ast.Attribute, ast.Subscript)) and isinstance(n.ctx, (ast.Store, ast.Del)) and astu.src(n).startswith('self')]
     setc = [x for x in astu.func_calls(f) if astu.call_name(x) in ('object.__setattr__', 'setattr')]
-    R.check(any('PyTreeNode' in b for b in bases) and not st and not setc, key_of(f, 'frozen PyTreeNode; no store to self'), f, '%s.%s must be a frozen struct.PyTreeNode whose apply_gradients performs no store to self' % (rel, q))
+    R.check(any('PyTreeNode' in b for b in bases) and not st and not setc, key_of(f, 'frozen PyTreeNode; no store to self'), f, evidence=bool(st or setc), msg_fail= '%s.%s must be a frozen struct.PyTreeNode whose apply_gradients performs no store to self' % (rel, q))
 
 
 @rule('C17.R5', 'K4', 5, 'optimizer-state wrappers are inverse tables and write back raw values')
@@ -128,9 +147,9 @@ def r5(R, repo):
       it = astu.isinstance_test(n.test, 'x')
       if it:
         kinds |= set(it[1])
-  R.check(kinds == {'OptVariable', 'OptArray'} and any(isinstance(n, ast.Raise) for n in ast.walk(up.node)), key_of(up, 'handles the same two kinds'), up, '_update_opt_state must handle exactly OptVariable and OptArray')
+  R.judge(len(kinds) >= 1, kinds == {'OptVariable', 'OptArray'}, key_of(up, 'handles the same two kinds'), up, '_update_opt_state must handle exactly OptVariable and OptArray')
   st = [n for n in ast.walk(up.node) if isinstance(n, ast.Attribute) and isinstance(n.ctx, ast.Store)]
-  R.check(len(st) == 2 and all(astu.src(n) == 'x.raw_value' for n in st), key_of(up, 'new optimizer state written to raw_value'), up,
+  R.judge(len(st) >= 1 and all(astu.src(n.value) == 'x' for n in st), all(astu.src(n) == 'x.raw_value' for n in st), key_of(up, 'new optimizer state written to raw_value'), up,
           'the new optax state must be written with `x.raw_value = …` (found %s): assigning `.value` runs the on_set_value hooks that the OptVariable inherited from the parameter, so the stored moments differ from what optax returned' % [astu.src(n) for n in st])
   vals = sorted(astu.src(astu.enclosing_stmt(n).value) for n in st)
   R.check(vals == ['update', 'update.value'], key_of(up, 'stores exactly the value returned by optax'), up, 'the stored values must be the optax results themselves (update.value / update)')
@@ -155,7 +174,7 @@ def r6(R, repo):
   for cls in ('Average', 'Welford'):
     ini, rs, up = m.func(cls + '.__init__'), m.func(cls + '.reset'), m.func(cls + '.update')
     a, b = _metric_fields(ini), _metric_fields(rs)
-    R.check(a == b and len(a) >= 2, key_of(rs, 'resets %s' % sorted(a)), rs, '%s.__init__ creates the statistics %s but reset() restores %s' % (cls, sorted(a), sorted(b)))
+    R.judge(len(a) >= 2 and len(b) >= 1, a == b, key_of(rs, 'resets %s' % sorted(a)), rs, '%s.__init__ creates the statistics %s but reset() restores %s' % (cls, sorted(a), sorted(b)))
     zero = all(astu.src(n.value).startswith('jnp.array(0') for n in astu.body_walk(rs.node) if isinstance(n, ast.Assign))
     R.check(zero, key_of(rs, 'resets to zero'), rs, '%s.reset must set every statistic back to zero' % cls)
     if m.has_func(cls + '.__init__'):
@@ -208,14 +227,14 @@ def r7(R, repo):
       factors.append(astu.src(x))
   if ok:
     flat(e.right.left)
-  R.check(ok and sorted(factors) == ['count', 'delta', 'delta', 'original_count'], key_of(wu, 'm2 += m2_batch + delta^2 * n_batch * n_old / n_new'), (wu, m2[0].stmt),
+  R.judge(ok and set(factors) <= {'count', 'delta', 'original_count'}, ok and sorted(factors) == ['count', 'delta', 'delta', 'original_count'], key_of(wu, 'm2 += m2_batch + delta^2 * n_batch * n_old / n_new'), (wu, m2[0].stmt),
           'Welford.update must merge the batch with M2 += M2_batch + delta² · n_batch · n_old / n_new (got `%s`)' % astu.short(e))
   # integer-overflow hazard: no product of two integer-typed operands
   bad = []
   for n in ast.walk(m2[0].stmt.value):
     if isinstance(n, ast.BinOp) and isinstance(n.op, ast.Mult) and astu.src(n.left) in INT_NAMES and astu.src(n.right) in INT_NAMES:
       bad.append(n)
-  R.check(not bad, key_of(wu, 'no integer * integer sub-product in the merge term'), (wu, m2[0].stmt),
+  R.check(not bad, key_of(wu, 'no integer * integer sub-product in the merge term'), (wu, m2[0].stmt), evidence=True, msg_fail=
           '`%s` multiplies two integer counts before any float factor: the product is evaluated in int32 and wraps once n_batch · n_old >= 2^31, so the reported deviation depends on how the stream was batched' % (astu.short(bad[0]) if bad else ''))
   wc = m.func('Welford.compute')
   R.check('variance = self.m2 / self.count' in astu.src(wc.node) and 'standard_deviation / self.count ** 0.5' in astu.src(wc.node), key_of(wc, 'variance = M2 / n; sem = sd / sqrt(n)'), wc, 'Welford.compute must report M2/n and sd/sqrt(n)')
